@@ -1,6 +1,6 @@
 //! C08 YUV->RGB->YUV is a lossless code round trip.
 
-use crate::api::{cfg, cfg_from_json, cfg_json, codes444, frame444};
+use crate::api::{cfg, cfg_from_json, cfg_json, codes444, frame444_pads};
 use crate::engine::*;
 use crate::gen::{depth_storage, expand_codes, std_matrix};
 use crate::oracle::{mc_name, STD_MC};
@@ -15,31 +15,53 @@ pub struct Case {
     pub cfg: YuvConfig,
     pub u8_storage: bool,
     pub codes: Codes,
+    /// rows and per-plane paddings of the source frame (None: one row, no padding)
+    pub layout: Option<(usize, [(usize, usize); 3])>,
 }
 impl Case {
     pub fn expand(&self) -> Vec<[u16; 3]> {
-        match &self.codes {
+        let mut v = match &self.codes {
             Codes::Seeded { stratum, seed, n } => expand_codes(self.cfg.bit_depth, *stratum, *seed, *n),
             Codes::Explicit(v) => v.clone(),
+        };
+        let (w, h, _) = self.dims(v.len());
+        v.truncate(w * h);
+        v
+    }
+    pub fn dims(&self, n: usize) -> (usize, usize, [(usize, usize); 3]) {
+        match self.layout {
+            Some((h, pads)) => {
+                let h = h.clamp(1, n.max(1));
+                ((n / h).max(1), h, pads)
+            }
+            None => (n, 1, [(0, 0); 3]),
         }
     }
     fn json_with(&self, codes: &[[u16; 3]]) -> Value {
-        json!({"prop":"C08","cfg":cfg_json(&self.cfg),"storage": if self.u8_storage {"u8"} else {"u16"}, "codes": codes})
+        json!({"prop":"C08","cfg":cfg_json(&self.cfg),"storage": if self.u8_storage {"u8"} else {"u16"}, "codes": codes, "layout": if codes.len() == 1 { None } else { self.layout }})
     }
 }
 
 pub fn strategy() -> BoxedStrategy<Case> {
-    (std_matrix(), any::<bool>(), depth_storage(), 0u8..5, any::<u64>(), 1usize..=256)
+    (std_matrix(), any::<bool>(), depth_storage(), 0u8..6, any::<u64>(), 1usize..=256)
         .prop_map(|(mc, full, (depth, u8s), stratum, seed, n)| Case {
             cfg: cfg(mc, TC::BT1886, CP::BT709, depth, full, (0, 0)),
             u8_storage: u8s,
             codes: Codes::Seeded { stratum, seed, n },
+            layout: {
+                let (_, h, pads) = crate::gen::layout_for(seed, n);
+                Some((h, pads))
+            },
         })
         .boxed()
 }
 
 fn roundtrip<T: Pixel>(c: &YuvConfig, codes: &[[u16; 3]]) -> Result<(Vec<[u16; 3]>, YuvConfig, usize, usize), String> {
-    let frame = frame444::<T>(codes, codes.len(), 1, 0, 0);
+    roundtrip_layout::<T>(c, codes, codes.len(), 1, [(0, 0); 3])
+}
+
+fn roundtrip_layout<T: Pixel>(c: &YuvConfig, codes: &[[u16; 3]], w: usize, h: usize, pads: [(usize, usize); 3]) -> Result<(Vec<[u16; 3]>, YuvConfig, usize, usize), String> {
+    let frame = frame444_pads::<T>(codes, w, h, pads);
     let yuv = Yuv::<T>::new(frame, *c).map_err(|e| format!("Yuv::new rejected a well-formed frame: {e:?}"))?;
     let rgb = Rgb::try_from(&yuv).map_err(|e| format!("decode failed: {e:?}"))?;
     let back = Yuv::<T>::try_from((rgb, yuv.config())).map_err(|e| format!("encode failed: {e:?}"))?;
@@ -70,14 +92,15 @@ pub fn check(case: &Case, st: &mut Stats) -> Result<(), Violation> {
         if case.u8_storage { "u8" } else { "u16" }
     );
     let fail = |msg: String, codes: &[[u16; 3]]| Violation { signature: sig.clone(), message: msg, case: case.json_with(codes) };
-    let res = catch(|| if case.u8_storage { roundtrip::<u8>(c, &codes) } else { roundtrip::<u16>(c, &codes) });
+    let (w0, h0, pads) = case.dims(codes.len());
+    let res = catch(|| if case.u8_storage { roundtrip_layout::<u8>(c, &codes, w0, h0, pads) } else { roundtrip_layout::<u16>(c, &codes, w0, h0, pads) });
     let (back, cfg2, w, h) = match res {
         Err(p) => return Err(fail(format!("panic: {p}"), &codes)),
         Ok(Err(e)) => return Err(fail(e, &codes)),
         Ok(Ok(r)) => r,
     };
     st.evaluations += 1;
-    if w != codes.len() || h != 1 || cfg2 != *c {
+    if w != w0 || h != h0 || cfg2 != *c {
         return Err(fail(format!("dims/config changed: {w}x{h} {:?}", cfg_json(&cfg2)), &codes));
     }
     let mut nontrivial = false;
@@ -101,6 +124,12 @@ pub fn check(case: &Case, st: &mut Stats) -> Result<(), Violation> {
                         Err(_) => false,
                     }
                 };
+                if !bad(*code) {
+                    return Err(fail(
+                        format!("triple #{i} {:?} plane {}: came back as {} (expected {}) only inside this {w0}x{h0} image (paddings {:?}); cfg {}", code, j, back[i][j], want[j], pads, cfg_json(c)),
+                        &codes,
+                    ));
+                }
                 let small = minimize_codes(*code, [half, half, half], bad);
                 return Err(fail(
                     format!("triple {:?} plane {}: came back as {} (expected {}) cfg {}; shrunk reproduction {:?}", code, j, back[i][j], want[j], cfg_json(c), small),
@@ -157,7 +186,7 @@ fn exhaustive_8bit(ctx: &Ctx, st: &mut Stats) -> Vec<Violation> {
                     codes.push([y, u, v]);
                 }
             }
-            let case = Case { cfg: cfg(mc, TC::BT1886, CP::BT709, 8, full, (0, 0)), u8_storage: u8s, codes: Codes::Explicit(codes) };
+            let case = Case { cfg: cfg(mc, TC::BT1886, CP::BT709, 8, full, (0, 0)), u8_storage: u8s, codes: Codes::Explicit(codes), layout: Some((256, [(0, 0), (0, 0), (y as usize % 4, 0)])) };
             let mut local = Stats::new();
             local.sample_budget = 0;
             if let Err(v) = check(&case, &mut local) {
@@ -216,7 +245,7 @@ fn plane_sweeps(ctx: &Ctx, st: &mut Stats) -> Vec<Violation> {
                         p[axis] = x as u16;
                         codes.push(p);
                     }
-                    let case = Case { cfg: c, u8_storage: false, codes: Codes::Explicit(codes) };
+                    let case = Case { cfg: c, u8_storage: false, codes: Codes::Explicit(codes), layout: None };
                     let mut local = Stats::new();
                     local.sample_budget = 0;
                     if let Err(v) = check(&case, &mut local) {
@@ -233,7 +262,8 @@ fn plane_sweeps(ctx: &Ctx, st: &mut Stats) -> Vec<Violation> {
                     let case = Case {
                         cfg: c,
                         u8_storage: false,
-                        codes: Codes::Seeded { stratum: (chunk % 5) as u8, seed: mix64(seed0 ^ (j << 20) ^ chunk), n: 65536 },
+                        codes: Codes::Seeded { stratum: (chunk % 6) as u8, seed: mix64(seed0 ^ (j << 20) ^ chunk), n: 65536 },
+                        layout: Some((128, [(0, 0), (chunk as usize % 3, 0), (0, 0)])),
                     };
                     let mut local = Stats::new();
                     local.sample_budget = 0;
@@ -254,8 +284,13 @@ fn plane_sweeps(ctx: &Ctx, st: &mut Stats) -> Vec<Violation> {
 pub fn replay(v: &Value) -> Result<(), String> {
     let cfg = cfg_from_json(v.get("cfg").ok_or("cfg")?).ok_or("bad cfg")?;
     let codes: Vec<[u16; 3]> = serde_json::from_value(v.get("codes").ok_or("codes")?.clone()).map_err(|e| e.to_string())?;
-    let case = Case { cfg, u8_storage: v.get("storage").and_then(|s| s.as_str()) == Some("u8"), codes: Codes::Explicit(codes) };
+    let case = Case {
+        cfg,
+        u8_storage: v.get("storage").and_then(|s| s.as_str()) == Some("u8"),
+        codes: Codes::Explicit(codes),
+        layout: v.get("layout").and_then(|l| serde_json::from_value(l.clone()).ok()).flatten(),
+    };
     check(&case, &mut Stats::new()).map_err(|v| v.message)
 }
 
-pub const RULE: &str = "cases = (matrix in 7 standard, range, depth 8..16, storage, batch of code triples as in C01) generated by proptest, plus enumerated 8-bit cube slices (quick: every 13th luma plane; thorough: all 2^24 triples) and per-plane complete sweeps at 9..16 bit; oracle = sample-exact equality with the input clamped to the legal limited range, the only tolerated deviation (full-range chroma 0 -> 1) recognised exactly and counted; non-trivial = batch containing a non-neutral-chroma triple; distinct = by hash of (config, batch)";
+pub const RULE: &str = "cases = (matrix in 7 standard, range, depth 8..16, storage, batch of code triples as in C01: 6 strata incl. related neighbours, 1..4 rows, independent per-plane paddings) generated by proptest, plus enumerated 8-bit cube slices (quick: every 13th luma plane; thorough: all 2^24 triples) and per-plane complete sweeps at 9..16 bit; oracle = sample-exact equality with the input clamped to the legal limited range, the only tolerated deviation (full-range chroma 0 -> 1) recognised exactly and counted; non-trivial = batch containing a non-neutral-chroma triple; distinct = by hash of (config, batch)";
